@@ -12,7 +12,7 @@ def decode(string):
   return unsafe_decode(string)
 
 def validate_decoded(obj):
-  if isinstance(obj, int):
+  if isinstance(obj, int) and not isinstance(obj, bool):
     pass
   else:
     raise gfapy.TypeError(
